@@ -16,7 +16,7 @@ ID = "C15"
 RULE = (
     "operation lists of length 1, 2 (thorough 3 over a reduced menu) over the eight operation names, paths from the C05 "
     "menu recomputed from the model state (so later operations edit containers introduced by earlier ones), on 10 start "
-    "documents; each list is built by four routes (list of dicts, builder chain, the patch's own asdicts(), JSON text); "
+    "documents; each list is built by five routes (list of dicts, builder chain with texts, builder chain with JSONPointer objects built from token lists, the patch's own asdicts(), JSON text); "
     "then the history apply / asdicts / apply-again / edit-first-result / apply-again is run on real objects. "
     "state = distinct (start document, op list); non-trivial = reference applies the list without error"
 )
@@ -114,7 +114,10 @@ def _options(acc):
                           ("builder", lambda: JSONPatch(unicode_escape=ue, uri_decode=ud).add(op["path"], 0)),
                           ("json", lambda: JSONPatch(json.dumps([op]), unicode_escape=ue, uri_decode=ud)),
                           ("builder-pointer", lambda: JSONPatch(unicode_escape=ue, uri_decode=ud).add(
-                              JSONPointer(op["path"], unicode_escape=ue, uri_decode=ud), 0))]
+                              JSONPointer(op["path"], unicode_escape=ue, uri_decode=ud), 0)),
+                          # the patch's own list-of-dicts output, loaded again under the same options
+                          ("asdicts", lambda: JSONPatch(JSONPatch([dict(op)], unicode_escape=ue, uri_decode=ud).asdicts(),
+                                                        unicode_escape=ue, uri_decode=ud))]
                 for name, mk in routes:
                     bad = None
                     try:
@@ -131,9 +134,9 @@ def _options(acc):
                     acc.case("OPT", (order, path, ue, ud, name), outcome=want_text, nontrivial=exp[0] == "doc")
                     acc.count("OPT.routes")
                     if bad:
+                        # (the exploration goes on: a recorded finding must not hide a different violation)
                         acc.violation("OPT", bad[0], {"path": path, "unicode_escape": ue, "uri_decode": ud, "route": name,
                                                       "order": [list(c) for c in order]}, expected=bad[1], observed=bad[2])
-                        return
 
 
 def run_shard(shard, acc):
@@ -177,18 +180,25 @@ def run_shard(shard, acc):
                     _run("L3", doc, [op1, op2, op3], acc)
 
 
-def _build(ops):
-    from jsonpath import JSONPatch
+def _build(ops, as_pointer=False):
+    """Builder chain; with as_pointer the locations are given as JSONPointer objects built from token lists (their
+    index tokens are held as strings, unlike those of a parsed pointer)."""
+    from jsonpath import JSONPatch, JSONPointer
+
+    def loc(text):
+        if not as_pointer:
+            return text
+        return JSONPointer.from_parts(rptr.parse(text), unicode_escape=False)
 
     p = JSONPatch()
     for op in ops:
         name = op["op"]
         if name in ("add", "addne", "addap", "replace", "test"):
-            p = getattr(p, name)(op["path"], op["value"])
+            p = getattr(p, name)(loc(op["path"]), op["value"])
         elif name == "remove":
-            p = p.remove(op["path"])
+            p = p.remove(loc(op["path"]))
         else:
-            p = getattr(p, name)(op["from"], op["path"])
+            p = getattr(p, name)(loc(op["from"]), loc(op["path"]))
     return p
 
 
@@ -250,7 +260,8 @@ def _run(sub, doc, ops, acc, record=True):
     bad = None
     try:
         caller = deep_copy(ops)
-        routes = [("dicts", JSONPatch(caller)), ("builder", _build(deep_copy(ops))), ("json", JSONPatch(json.dumps(ops)))]
+        routes = [("dicts", JSONPatch(caller)), ("builder", _build(deep_copy(ops))), ("json", JSONPatch(json.dumps(ops))),
+                  ("builder-pointers", _build(deep_copy(ops), as_pointer=True))]
         routes.append(("asdicts", JSONPatch(routes[0][1].asdicts())))
         for name, p in routes:
             d = p.asdicts()
@@ -321,7 +332,8 @@ def check_case(sub, case, acc):
     if sub == "OPT":
         a = type(acc)()
         _options(a)
-        acc.viol.extend(a.viol[:1])
+        same = [v for v in a.viol if all(v["case"].get(k) == case.get(k) for k in ("path", "unicode_escape", "uri_decode", "route"))]
+        acc.viol.extend(same[:1])
         return
     _run(sub, case["doc"], case["ops"], acc, record=False)
 
@@ -334,7 +346,7 @@ def shrink(sub, case):
 
 def signature(sub, case, v):
     if sub == "OPT":
-        return "C15.OPT.%s.ue=%s.ud=%s" % (v["kind"], case["unicode_escape"], case["uri_decode"])
+        return "C15.OPT.%s.ue=%s.ud=%s.%s" % (v["kind"], case["unicode_escape"], case["uri_decode"], case["path"])
     doc, ops = case["doc"], case["ops"]
     cur = doc
     parts = []
